@@ -18,7 +18,15 @@
 //   - reads: QueryService / dispatch for every name of interest, ForEach,
 //     GetServiceInfo;
 //   - "the caller edits, in place, every result GetServiceInfo has handed out
-//     so far" (one op per kind of edit, see mutationKinds), followed by all reads.
+//     so far" (one op per kind of edit, see mutationKinds), followed by all reads;
+//   - descriptor OBJECT re-use: "the descriptor object registered under <src> is
+//     given the name <new> and registered again with another handler" (share-*,
+//     one op per handler kind) and "... is given the name <new>" without being
+//     registered again (rename). The same objects are registered with, and
+//     renamed under, the reference grpc.Server. The state key is extended by
+//     which object each entry holds and the current name of every held object
+//     (model.keyOf); swept around every state of the full pool and crossed with
+//     everything else to closure in a pool of three descriptors (see main).
 package main
 
 import (
@@ -191,6 +199,9 @@ type pctx struct {
 	ref *grpc.Server
 	// every result GetServiceInfo has handed out on this path (registry / reference)
 	held, refHeld []map[string]grpc.ServiceInfo
+
+	m      model // the model of this path (for classifying the names problems are about)
+	edited bool  // a descriptor-edit op (share-* / rename) has been applied on this path
 
 	tainted  bool            // a mutate op has been applied on this path
 	baseline map[string]bool // clause|detail of the problems seen before the first mutate op
@@ -482,14 +493,24 @@ func (x *pctx) dispatch(c carrier, svc, method string, isStream bool, sd streamD
 
 // ---------------------------------------------------------------- model
 
-type reg struct {
-	idx     int
-	desc    *grpc.ServiceDesc
-	handler interface{}
-	hkind   string // "" pointer | "tnil" | "nil"
-	tag     string
+// dobj is one descriptor OBJECT of the caller: built from a pool entry (which
+// fixes its HandlerType, methods and metadata), possibly registered several
+// times, its ServiceName patched by the caller in between or afterwards.
+type dobj struct {
+	d      *grpc.ServiceDesc
+	origin int    // pool entry it was built from
+	tag    string // step that built it (its method closures log this tag)
+	cur    string // the ServiceName the CALLER has given it last
 }
 
+type reg struct {
+	obj     *dobj // the descriptor object that was passed to RegisterService
+	handler interface{}
+	hkind   string // "" pointer | "tnil" | "nil"
+}
+
+// model: registration name (the ServiceName the descriptor carried WHEN it was
+// registered) -> what was registered
 type model map[string]reg
 
 func keySuffix(hk string) string {
@@ -501,25 +522,111 @@ func keySuffix(hk string) string {
 
 func (m model) key() string {
 	names := make([]string, 0, len(m))
-	for n, r := range m {
-		names = append(names, n+keySuffix(r.hkind))
+	for n := range m {
+		names = append(names, n)
 	}
-	sort.Strings(names)
-	return "{" + strings.Join(names, ",") + "}"
+	return m.keyOf(names)
+}
+
+// objs: the distinct descriptor objects held by registrations, ordered by origin
+// (an object is registered first under the name of its pool entry and nothing is
+// ever unregistered, so the origin identifies a held object).
+func (m model) objs() []*dobj {
+	var out []*dobj
+	seen := map[*dobj]bool{}
+	for _, r := range m {
+		if !seen[r.obj] {
+			seen[r.obj] = true
+			out = append(out, r.obj)
+		}
+	}
+	sort.Slice(out, func(i, j int) bool {
+		if out[i].origin != out[j].origin {
+			return out[i].origin < out[j].origin
+		}
+		return out[i].tag < out[j].tag
+	})
+	return out
+}
+
+// keyOf renders a state key for the given set of names: each name with the kind
+// of handler held for it ("=tnil", "=nil") and, when the descriptor object it was
+// registered with was built for another name, "<" that name (entries with the
+// same "<origin", and the entry of that origin itself, SHARE one object); then,
+// after ";", every held descriptor object whose current ServiceName is not the
+// one it was built with, as origin->current.
+func (m model) keyOf(names []string) string {
+	parts := make([]string, 0, len(names))
+	for _, n := range names {
+		s := n
+		if r, ok := m[n]; ok {
+			s += keySuffix(r.hkind)
+			if o := pool[r.obj.origin].name; o != n {
+				s += "<" + o
+			}
+		}
+		parts = append(parts, s)
+	}
+	sort.Strings(parts)
+	var ren []string
+	for _, o := range m.objs() {
+		if on := pool[o.origin].name; o.cur != on {
+			ren = append(ren, on+"->"+o.cur)
+		}
+	}
+	k := strings.Join(parts, ",")
+	if len(ren) > 0 {
+		k += ";" + strings.Join(ren, ",")
+	}
+	return "{" + k + "}"
+}
+
+// class tells how a name is involved with descriptor objects whose ServiceName
+// the caller has changed ("" = not at all). It is the parameter that matters for
+// a problem seen after such an edit, and replaces the name in the fingerprint.
+func (m model) class(n string) string {
+	r, registered := m[n]
+	foreign, holders := false, 0
+	for _, o := range m.objs() {
+		if o.cur == n && (!registered || r.obj != o) {
+			foreign = true
+		}
+	}
+	if !registered {
+		if foreign {
+			return "unregistered-name-carried-by-a-held-descriptor"
+		}
+		return ""
+	}
+	for _, q := range m {
+		if q.obj == r.obj {
+			holders++
+		}
+	}
+	switch {
+	case r.obj.cur != n:
+		return "key-whose-descriptor-now-carries-another-name"
+	case foreign:
+		return "key-whose-name-another-held-descriptor-carries-too"
+	case holders > 1:
+		return "key-of-a-descriptor-registered-under-several-names"
+	}
+	return ""
 }
 
 // implKey is the canonical state key: the names the REAL object reports, each
 // with the kind of handler accepted for it (pointer: no suffix; "=tnil";
 // "=nil") -- the behaviour of a registration attempt may depend on what is
-// stored, not only on which names are present.
+// stored, not only on which names are present -- and with the descriptor
+// object it was registered with, plus the current names of the caller's
+// descriptor objects (caller-side state; see model.keyOf).
 func (x *pctx) implKey(c carrier, m model) string {
 	names := []string{}
 	got, _ := x.info(c)
 	for n := range got {
-		names = append(names, n+keySuffix(m[n].hkind))
+		names = append(names, n)
 	}
-	sort.Strings(names)
-	return "{" + strings.Join(names, ",") + "}"
+	return m.keyOf(names)
 }
 
 // ---------------------------------------------------------------- mutation of results handed out
@@ -655,7 +762,28 @@ func mutateResult(kind string, r map[string]grpc.ServiceInfo) (writes int) {
 
 // ---------------------------------------------------------------- ops
 
-// op strings: <reg kind>:<name>  query:<name>  foreach  info  mutate:<kind>
+// subPool: the descriptors of the space in which descriptor-edit ops are explored to closure
+var subPool = []int{1, 2, 3}
+
+// editOps: share ops (every handler kind x every source registration x every new name among
+// names) and rename ops (every source registration x every target)
+func editOps(names, kinds, renameTargets []string) (share, rename []string) {
+	for _, k := range kinds {
+		for _, src := range names {
+			for _, nw := range names {
+				share = append(share, "share-"+k+":"+src+">"+nw)
+			}
+		}
+	}
+	for _, src := range names {
+		for _, nw := range renameTargets {
+			rename = append(rename, "rename:"+src+">"+nw)
+		}
+	}
+	return
+}
+
+// op strings: <reg kind>:<name>  query:<name>  foreach  info  mutate:<kind>  share-<reg kind>:<src>><new>  rename:<src>><new>
 func opsFor(carrierName string) (registerOps, readOps, mutateOps []string) {
 	for _, k := range regKinds {
 		for _, i := range poolFor(carrierName) {
@@ -679,10 +807,19 @@ type problem struct {
 	clause string // short, goes into the fingerprint
 	detail string // parameter that matters (service name ...), goes into the fingerprint
 	what   string
-	mut    bool // seen only after a mutate op of the path (see absorb / runPath)
+	mut    bool   // seen only after a mutate op of the path (see absorb / runPath)
+	subj   string // the service name the problem is about ("" = none in particular)
+	done   bool   // classified by absorb
 }
 
 const afterMutation = "after-result-mutation:"
+
+// Problems seen on a path on which the caller has changed the ServiceName of a
+// descriptor object it had registered (share-* / rename ops) have their own
+// clauses when they are about a name involved in that (model.class), about no
+// name in particular, or about the registry state as a whole; the name itself
+// is replaced by its class, since it is the relation that matters.
+const afterEdit = "after-descriptor-edit:"
 
 func (p problem) key() string { return p.clause + "|" + p.detail }
 
@@ -703,6 +840,23 @@ func (p problem) render() (clause, what string) {
 // attribution only for what the control does not show).
 func (x *pctx) absorb(ps []problem) []problem {
 	for i := range ps {
+		if ps[i].done {
+			continue
+		}
+		ps[i].done = true
+		if x.edited {
+			p := &ps[i]
+			switch {
+			case strings.HasPrefix(p.clause, "state-"):
+				p.clause, p.detail = afterEdit+"registry-state", ""
+			case p.subj == "":
+				p.clause = afterEdit + p.clause
+			default:
+				if cls := x.m.class(p.subj); cls != "" {
+					p.clause, p.detail = afterEdit+p.clause, cls
+				}
+			}
+		}
 		k := ps[i].key()
 		if !x.tainted {
 			x.baseline[k] = true
@@ -727,10 +881,109 @@ func callRegister(c carrier, d *grpc.ServiceDesc, h interface{}) (panicked bool,
 func guarded(clause, detail string, probs *[]problem, f func()) {
 	defer func() {
 		if r := recover(); r != nil {
-			*probs = append(*probs, problem{clause: clause + "-panic", detail: detail, what: fmt.Sprintf("%s(%s) panicked: %v", clause, detail, r)})
+			*probs = append(*probs, problem{clause: clause + "-panic", detail: detail, subj: detail, what: fmt.Sprintf("%s(%s) panicked: %v", clause, detail, r)})
 		}
 	}()
 	f()
+}
+
+// Descriptor-edit ops: the caller re-uses a descriptor OBJECT it has registered.
+//
+//	share-<reg kind>:<src>><new>  the object registered under <src> gets ServiceName = <new> and is
+//	                              registered again, with a new handler value chosen as for <reg kind>
+//	                              relative to the object's own HandlerType (a *grpc.Server reads the
+//	                              descriptor at registration time, so this is fine there)
+//	rename:<src>><new>            the object registered under <src> gets ServiceName = <new>; nothing
+//	                              is registered
+//
+// Both are enabled when <src> is registered.
+func isShareKind(k string) bool {
+	return strings.HasPrefix(k, "share-") && isRegKind(k[len("share-"):])
+}
+
+func isDescEditKind(k string) bool { return k == "rename" || isShareKind(k) }
+
+func splitEdit(name string) (src, nw string) {
+	i := strings.IndexByte(name, '>')
+	if i < 0 {
+		panic("bad descriptor-edit op argument " + name)
+	}
+	return name[:i], name[i+1:]
+}
+
+// opEnabled: descriptor-edit ops need their source registration (names: the model's registrations)
+func opEnabled(op string, names map[string]bool) bool {
+	if k := opKind(op); isDescEditKind(k) {
+		src, _ := splitEdit(op[len(k)+1:])
+		return names[src]
+	}
+	return true
+}
+
+// register makes one registration attempt with descriptor object o (whose ServiceName is name at
+// this moment) and a handler of the given kind, on the real object, the model and the reference.
+func (x *pctx) register(c carrier, m model, op, kind, name string, o *dobj, tag, before string) (probs []problem) {
+	h := makeHandler(o.origin, kind, tag)
+	old, dup := m[name]
+	wellTyped := kind == "reg" || kind == "reg-tnil"
+	either := kind == "reg-nil" && !dup // see nilHandlerRule
+	wantPanic := dup || !(wellTyped || either)
+	why := ""
+	switch {
+	case dup && (wellTyped || kind == "reg-nil"):
+		why = "duplicate registration"
+	case kind == "reg-nil":
+		why = "untyped nil handler"
+	case wellTyped || either:
+		why = "first registration for the name, handler acceptable"
+	default:
+		why = fmt.Sprintf("handler %T does not implement the service interface", h)
+	}
+	// the parameter that matters: the name, and what kind of handler is held / offered when
+	// either is not the ordinary pointer
+	detail := name
+	if dup && (kind == "reg-tnil" || kind == "reg-nil" || old.hkind != "") {
+		detail = fmt.Sprintf("%s[held=%s,new=%s]", name, hkindLabel(old.hkind), hkindLabel(hkindOf(kind)))
+	} else if !dup && kind == "reg-tnil" {
+		detail = name + "[new=tnil]"
+	}
+	panicked, pv := callRegister(c, o.d, h)
+	x.lastObs = fmt.Sprintf("RegisterService(%s, %s) with name %s panicked=%v", x.id(o.d), x.id(h), name, panicked)
+	if panicked {
+		x.lastObs += fmt.Sprintf(" (%v)", pv)
+	}
+	accepted := !wantPanic
+	if either {
+		accepted = !panicked
+		if panicked {
+			x.nilRef++
+		} else {
+			x.nilAcc++
+		}
+	}
+	switch {
+	case either:
+	case wantPanic && !panicked:
+		cl := "dup-not-refused"
+		if !wellTyped && kind != "reg-nil" {
+			cl = kind + "-not-refused"
+		}
+		probs = append(probs, problem{clause: cl, detail: detail, subj: name, what: fmt.Sprintf("RegisterService(%s as %s, %s) with %s did not panic", x.id(o.d), name, x.id(h), why)})
+	case !wantPanic && panicked:
+		probs = append(probs, problem{clause: "good-registration-panicked", detail: detail, subj: name, what: fmt.Sprintf("first, well-typed RegisterService(%s as %s, %s) panicked: %v", x.id(o.d), name, x.id(h), pv)})
+	}
+	if accepted {
+		m[name] = reg{obj: o, handler: h, hkind: hkindOf(kind)}
+		x.ref.RegisterService(o.d, h) // the same registration on the reference server
+	}
+	if after := x.implKey(c, m); after != m.key() {
+		cl := "state-after-" + kind
+		if dup && (wellTyped || kind == "reg-nil") {
+			cl = "state-after-dup"
+		}
+		probs = append(probs, problem{clause: cl, detail: detail, subj: name, what: fmt.Sprintf("after %s (%s) the registry reports %s, expected %s (before: %s)", op, why, after, m.key(), before)})
+	}
+	return
 }
 
 // applyOp applies one op to the real object, to the model and to the reference
@@ -746,64 +999,35 @@ func (x *pctx) applyOp(c carrier, m model, op string, step int) (probs []problem
 	switch {
 	case isRegKind(kind):
 		i := poolIndex(name)
-		d := x.makeDesc(i, tag)
-		h := makeHandler(i, kind, tag)
-		old, dup := m[name]
-		wellTyped := kind == "reg" || kind == "reg-tnil"
-		either := kind == "reg-nil" && !dup // see nilHandlerRule
-		wantPanic := dup || !(wellTyped || either)
-		why := ""
-		switch {
-		case dup && (wellTyped || kind == "reg-nil"):
-			why = "duplicate registration"
-		case kind == "reg-nil":
-			why = "untyped nil handler"
-		default:
-			why = fmt.Sprintf("handler %T does not implement the service interface", h)
+		o := &dobj{d: x.makeDesc(i, tag), origin: i, tag: tag, cur: name} // a FRESH descriptor object
+		probs = x.register(c, m, op, kind, name, o, tag, before)
+	case isShareKind(kind):
+		src, nw := splitEdit(name)
+		r, ok := m[src]
+		if !ok {
+			x.lastObs = "disabled (nothing is registered under " + src + ")"
+			break
 		}
-		// the parameter that matters: the name, and what kind of handler is held / offered when
-		// either is not the ordinary pointer
-		detail := name
-		if dup && (kind == "reg-tnil" || kind == "reg-nil" || old.hkind != "") {
-			detail = fmt.Sprintf("%s[held=%s,new=%s]", name, hkindLabel(old.hkind), hkindLabel(hkindOf(kind)))
-		} else if !dup && kind == "reg-tnil" {
-			detail = name + "[new=tnil]"
+		x.edited = true
+		o := r.obj
+		was := o.cur
+		o.d.ServiceName, o.cur = nw, nw // the caller patches the name of the object it registered before
+		probs = x.register(c, m, op, kind[len("share-"):], nw, o, tag, before)
+		x.lastObs = fmt.Sprintf("%s (held under %s, named %s) renamed %s; %s", x.id(o.d), src, was, nw, x.lastObs)
+	case kind == "rename":
+		src, nw := splitEdit(name)
+		r, ok := m[src]
+		if !ok {
+			x.lastObs = "disabled (nothing is registered under " + src + ")"
+			break
 		}
-		panicked, pv := callRegister(c, d, h)
-		x.lastObs = fmt.Sprintf("RegisterService(%s, %s) panicked=%v", name, x.id(h), panicked)
-		if panicked {
-			x.lastObs += fmt.Sprintf(" (%v)", pv)
-		}
-		accepted := !wantPanic
-		if either {
-			accepted = !panicked
-			if panicked {
-				x.nilRef++
-			} else {
-				x.nilAcc++
-			}
-		}
-		switch {
-		case either:
-		case wantPanic && !panicked:
-			cl := "dup-not-refused"
-			if !wellTyped && kind != "reg-nil" {
-				cl = kind + "-not-refused"
-			}
-			probs = append(probs, problem{clause: cl, detail: detail, what: fmt.Sprintf("RegisterService(%s, %s) with %s did not panic", name, x.id(h), why)})
-		case !wantPanic && panicked:
-			probs = append(probs, problem{clause: "good-registration-panicked", detail: detail, what: fmt.Sprintf("first, well-typed RegisterService(%s, %s) panicked: %v", name, x.id(h), pv)})
-		}
-		if accepted {
-			m[name] = reg{idx: i, desc: d, handler: h, hkind: hkindOf(kind), tag: tag}
-			x.ref.RegisterService(d, h) // the same registration on the reference server
-		}
+		x.edited = true
+		o := r.obj
+		was := o.cur
+		o.d.ServiceName, o.cur = nw, nw
+		x.lastObs = fmt.Sprintf("%s (held under %s, named %s) renamed %s without registering it; all reads repeated", x.id(o.d), src, was, nw)
 		if after := x.implKey(c, m); after != m.key() {
-			cl := "state-after-" + kind
-			if dup && (wellTyped || kind == "reg-nil") {
-				cl = "state-after-dup"
-			}
-			probs = append(probs, problem{clause: cl, detail: detail, what: fmt.Sprintf("after %s (%s) the registry reports %s, expected %s (before: %s)", op, why, after, m.key(), before)})
+			probs = append(probs, problem{clause: "state-after-rename", detail: src, subj: src, what: fmt.Sprintf("after %s the registry reports %s, expected %s (before: %s)", op, after, m.key(), before)})
 		}
 	case kind == "query" || kind == "foreach" || kind == "info":
 		// the read itself is evaluated by the state oracle (which performs every read op);
@@ -858,39 +1082,69 @@ func (x *pctx) queryOracle(c carrier, m model, q qname, probs *[]problem) {
 	if mc, ok := c.(*mapCarrier); ok {
 		d, h := mc.m.QueryService(name)
 		if registered {
-			if d != want.desc || h != want.handler {
-				*probs = append(*probs, problem{clause: "query-wrong", detail: name, what: fmt.Sprintf("QueryService(%s) = (%s, %s), registered was (%s, %s)", name, x.id(d), x.id(h), x.id(want.desc), x.id(want.handler))})
+			if d != want.obj.d || h != want.handler {
+				*probs = append(*probs, problem{clause: "query-wrong", detail: name, subj: name, what: fmt.Sprintf("QueryService(%s) = (%s, %s), registered was (%s, %s)", name, x.id(d), x.id(h), x.id(want.obj.d), x.id(want.handler))})
 			}
 		} else if d != nil || h != nil {
-			*probs = append(*probs, problem{clause: "query-ghost", detail: name, what: fmt.Sprintf("QueryService(%q) of a name never registered = (%s, %s)", name, x.id(d), x.id(h))})
+			*probs = append(*probs, problem{clause: "query-ghost", detail: name, subj: name, what: fmt.Sprintf("QueryService(%q) of a name never registered = (%s, %s)", name, x.id(d), x.id(h))})
 		}
 		return
 	}
-	// transports: look up by dispatching every method of the service
+	// transports: look up by dispatching every method of the service. A registered name has the
+	// methods of the descriptor OBJECT it was registered with (its origin); the methods its own pool
+	// entry would have, but that object lacks, must be unknown.
 	type call struct {
 		method string
 		stream bool
 		sd     streamDef
+		absent bool // not a method of the registered descriptor
 	}
 	var calls []call
-	if i := q.methodsFrom; i >= 0 {
+	methodsOf := func(i int, absent bool, except map[string]bool) {
 		for _, u := range pool[i].unary {
-			calls = append(calls, call{u, false, streamDef{}})
+			if !except[u] {
+				calls = append(calls, call{u, false, streamDef{}, absent})
+			}
 		}
 		for _, s := range pool[i].streams {
-			calls = append(calls, call{s.name, true, s})
+			if !except[s.name] {
+				calls = append(calls, call{s.name, true, s, absent})
+			}
 		}
-	} else {
-		calls = []call{{"X", false, streamDef{}}, {"Y", true, streamDef{"Y", true, true}}}
+	}
+	switch {
+	case registered:
+		methodsOf(want.obj.origin, false, nil)
+		if i := poolIndex(name); i >= 0 && i != want.obj.origin {
+			has := map[string]bool{}
+			for _, u := range pool[want.obj.origin].unary {
+				has[u] = true
+			}
+			for _, s := range pool[want.obj.origin].streams {
+				has[s.name] = true
+			}
+			methodsOf(i, true, has)
+		}
+	case q.methodsFrom >= 0:
+		methodsOf(q.methodsFrom, false, nil)
+	default:
+		calls = []call{{"X", false, streamDef{}, false}, {"Y", true, streamDef{"Y", true, true}, false}}
 	}
 	for _, cl := range calls {
 		evs, ok, obs := x.dispatch(c, name, cl.method, cl.stream, cl.sd)
-		if registered {
-			if len(evs) != 1 || evs[0].descTag != want.tag || evs[0].method != cl.method || evs[0].srv != want.handler || !ok {
-				*probs = append(*probs, problem{clause: "dispatch-wrong", detail: name, what: fmt.Sprintf("call /%s/%s: handler events %s, transport %s; expected exactly one run of the descriptor registered at %s with handler %s", name, cl.method, x.fmtEvents(evs), obs, want.tag, x.id(want.handler))})
+		switch {
+		case registered && !cl.absent:
+			if len(evs) != 1 || evs[0].descTag != want.obj.tag || evs[0].method != cl.method || evs[0].srv != want.handler || !ok {
+				*probs = append(*probs, problem{clause: "dispatch-wrong", detail: name, subj: name, what: fmt.Sprintf("call /%s/%s: handler events %s, transport %s; expected exactly one run of the descriptor built at %s with handler %s", name, cl.method, x.fmtEvents(evs), obs, want.obj.tag, x.id(want.handler))})
 			}
-		} else if len(evs) != 0 || ok {
-			*probs = append(*probs, problem{clause: "dispatch-ghost", detail: name, what: fmt.Sprintf("call /%s/%s of a service not registered: handler events %s, transport %s", name, cl.method, x.fmtEvents(evs), obs)})
+		case registered:
+			if len(evs) != 0 || ok {
+				*probs = append(*probs, problem{clause: "dispatch-ghost-method", detail: name, subj: name, what: fmt.Sprintf("call /%s/%s, which is not a method of the descriptor registered under %s (%s): handler events %s, transport %s", name, cl.method, name, x.id(want.obj.d), x.fmtEvents(evs), obs)})
+			}
+		default:
+			if len(evs) != 0 || ok {
+				*probs = append(*probs, problem{clause: "dispatch-ghost", detail: name, subj: name, what: fmt.Sprintf("call /%s/%s of a service not registered: handler events %s, transport %s", name, cl.method, x.fmtEvents(evs), obs)})
+			}
 		}
 	}
 }
@@ -903,33 +1157,61 @@ func (x *pctx) fmtEvents(evs []event) string {
 	return "[" + strings.Join(s, " ") + "]"
 }
 
+// forEachOracle: iteration visits every registration exactly once. A
+// registration is the (descriptor object, handler) pair that was accepted; the
+// oracle compares the multiset of visited pairs with the multiset of registered
+// pairs (two registrations of one shared descriptor object with equal handler
+// values, e.g. typed-nil pointers, are one pair expected twice). The name a
+// descriptor carries at the time of the iteration plays no part.
 func (x *pctx) forEachOracle(mc *mapCarrier, m model, probs *[]problem) {
-	seen := map[string]int{}
+	type pair struct {
+		d *grpc.ServiceDesc
+		h interface{}
+	}
+	seen := map[pair]int{}
+	var order []pair
 	total := 0
 	mc.m.ForEach(func(d *grpc.ServiceDesc, h interface{}) {
 		total++
-		if d == nil {
-			seen["<nil desc>"]++
-			return
+		p := pair{d, h}
+		if seen[p] == 0 {
+			order = append(order, p)
 		}
-		seen[d.ServiceName]++
-		want, ok := m[d.ServiceName]
-		if !ok || want.desc != d || want.handler != h {
-			*probs = append(*probs, problem{clause: "foreach-wrong-pair", detail: d.ServiceName, what: fmt.Sprintf("ForEach visited (%s, %s, %s) which is not a registration of the model", d.ServiceName, x.id(d), x.id(h))})
-		}
+		seen[p]++
 	})
 	names := make([]string, 0, len(m))
 	for n := range m {
 		names = append(names, n)
 	}
 	sort.Strings(names)
+	want := map[pair]int{}
+	first := map[pair]string{}
 	for _, n := range names {
-		if seen[n] != 1 {
-			*probs = append(*probs, problem{clause: "foreach-count", detail: n, what: fmt.Sprintf("ForEach visited %s %d times (total visits %d, registrations %d)", n, seen[n], total, len(m))})
+		p := pair{m[n].obj.d, m[n].handler}
+		if want[p] == 0 {
+			first[p] = n
+		}
+		want[p]++
+	}
+	var summary []string
+	for _, p := range order {
+		summary = append(summary, fmt.Sprintf("(%s,%s)x%d", x.id(p.d), x.id(p.h), seen[p]))
+		if want[p] == 0 {
+			dn, subj := "<nil desc>", ""
+			if p.d != nil {
+				dn, subj = p.d.ServiceName, p.d.ServiceName
+			}
+			*probs = append(*probs, problem{clause: "foreach-wrong-pair", detail: dn, subj: subj, what: fmt.Sprintf("ForEach visited (%s, %s, %s) which is not a registration of the model", dn, x.id(p.d), x.id(p.h))})
+		}
+	}
+	for _, n := range names {
+		p := pair{m[n].obj.d, m[n].handler}
+		if first[p] == n && seen[p] != want[p] {
+			*probs = append(*probs, problem{clause: "foreach-count", detail: n, subj: n, what: fmt.Sprintf("ForEach visited the registration of %s (%s, %s) %d times, expected %d (total visits %d, registrations %d)", n, x.id(p.d), x.id(p.h), seen[p], want[p], total, len(m))})
 		}
 	}
 	if total != len(m) {
-		*probs = append(*probs, problem{clause: "foreach-total", detail: "", what: fmt.Sprintf("ForEach made %d visits for %d registrations: %v", total, len(m), seen)})
+		*probs = append(*probs, problem{clause: "foreach-total", detail: "", what: fmt.Sprintf("ForEach made %d visits for %d registrations: %v", total, len(m), summary)})
 	}
 }
 
@@ -948,43 +1230,94 @@ func methodSet(ms []grpc.MethodInfo) string {
 	return strings.Join(s, " ")
 }
 
+// sameMethodSet: methodSet(a) == methodSet(b), without building the strings
+func sameMethodSet(a, b []grpc.MethodInfo) bool {
+	in := func(m grpc.MethodInfo, s []grpc.MethodInfo) bool {
+		for _, y := range s {
+			if y == m {
+				return true
+			}
+		}
+		return false
+	}
+	for _, m := range a {
+		if !in(m, b) {
+			return false
+		}
+	}
+	for _, m := range b {
+		if !in(m, a) {
+			return false
+		}
+	}
+	return true
+}
+
 // infoOracle: a fresh GetServiceInfo of the registry against a fresh
-// GetServiceInfo of the reference grpc.Server that was driven by the same sequence.
+// GetServiceInfo of the reference grpc.Server that was driven by the same
+// sequence (same descriptor objects, registered and renamed at the same moments).
 func (x *pctx) infoOracle(c carrier, m model, probs *[]problem) {
 	got, want := x.info(c)
-	names := make([]string, 0, len(want))
-	for n := range want {
-		names = append(names, n)
-	}
-	sort.Strings(names)
-	for _, n := range names {
-		w := want[n]
-		g, ok := got[n]
-		if !ok {
-			*probs = append(*probs, problem{clause: "info-missing-service", detail: n, what: fmt.Sprintf("GetServiceInfo lacks %s which grpc.Server reports", n)})
-			continue
+	seenProb := map[string]bool{}
+	compare := func(got map[string]grpc.ServiceInfo) {
+		add := func(p problem) {
+			if k := p.key(); !seenProb[k] {
+				seenProb[k] = true
+				*probs = append(*probs, p)
+			}
 		}
-		if methodSet(g.Methods) != methodSet(w.Methods) {
-			*probs = append(*probs, problem{clause: "info-methods", detail: n, what: fmt.Sprintf("GetServiceInfo[%s].Methods = {%s}, grpc.Server reports {%s}", n, methodSet(g.Methods), methodSet(w.Methods))})
+		names := make([]string, 0, len(want))
+		for n := range want {
+			names = append(names, n)
 		}
-		if !reflect.DeepEqual(g.Metadata, w.Metadata) {
-			*probs = append(*probs, problem{clause: "info-metadata", detail: n, what: fmt.Sprintf("GetServiceInfo[%s].Metadata = %#v, grpc.Server reports %#v", n, g.Metadata, w.Metadata)})
+		sort.Strings(names)
+		for _, n := range names {
+			w := want[n]
+			g, ok := got[n]
+			if !ok {
+				add(problem{clause: "info-missing-service", detail: n, subj: n, what: fmt.Sprintf("GetServiceInfo lacks %s which grpc.Server reports", n)})
+				continue
+			}
+			if !sameMethodSet(g.Methods, w.Methods) {
+				add(problem{clause: "info-methods", detail: n, subj: n, what: fmt.Sprintf("GetServiceInfo[%s].Methods = {%s}, grpc.Server reports {%s}", n, methodSet(g.Methods), methodSet(w.Methods))})
+			}
+			if !reflect.DeepEqual(g.Metadata, w.Metadata) {
+				add(problem{clause: "info-metadata", detail: n, subj: n, what: fmt.Sprintf("GetServiceInfo[%s].Metadata = %#v, grpc.Server reports %#v", n, g.Metadata, w.Metadata)})
+			}
+		}
+		names = names[:0]
+		for n := range got {
+			names = append(names, n)
+		}
+		sort.Strings(names)
+		for _, n := range names {
+			if _, ok := want[n]; !ok {
+				add(problem{clause: "info-extra-service", detail: n, subj: n, what: fmt.Sprintf("GetServiceInfo reports %s which grpc.Server with the same registrations does not", n)})
+			}
 		}
 	}
-	names = names[:0]
-	for n := range got {
-		names = append(names, n)
-	}
-	sort.Strings(names)
-	for _, n := range names {
-		if _, ok := want[n]; !ok {
-			*probs = append(*probs, problem{clause: "info-extra-service", detail: n, what: fmt.Sprintf("GetServiceInfo reports %s which grpc.Server with the same registrations does not", n)})
-		}
-	}
+	compare(got)
 	if len(want) != len(m) { // the reference and the model are driven together
 		panic(fmt.Sprintf("checker: reference server reports %d services, model has %d", len(want), len(m)))
 	}
+	// Go's map iteration order is not under the checker's control. Where a result could depend
+	// on it (two different held descriptor objects carry the same name at this moment, so two
+	// registrations with different contents compete for one name) the read is repeated and every
+	// result is checked, so that the verdict does not depend on the order met first.
+	carried := map[string]bool{}
+	clash := false
+	for _, o := range m.objs() {
+		clash = clash || carried[o.cur]
+		carried[o.cur] = true
+	}
+	if clash {
+		for i := 0; i < infoRepeats; i++ {
+			compare(c.Info())
+		}
+	}
 }
+
+const infoRepeats = 64
 
 // stateOracle evaluates every read operation in the current state.
 func (x *pctx) stateOracle(c carrier, m model) (probs []problem) {
@@ -999,6 +1332,12 @@ func (x *pctx) stateOracle(c carrier, m model) (probs []problem) {
 		guarded("foreach", "", &probs, func() { x.forEachOracle(mc, m, &probs) })
 	}
 	guarded("info", "", &probs, func() { x.infoOracle(c, m, &probs) })
+	// the registry must leave the caller's descriptor objects alone
+	for _, o := range m.objs() {
+		if o.d.ServiceName != o.cur {
+			probs = append(probs, problem{clause: "descriptor-name-changed-by-registry", detail: pool[o.origin].name, subj: pool[o.origin].name, what: fmt.Sprintf("%s, which the caller named %s last, now carries ServiceName %q", x.id(o.d), o.cur, o.d.ServiceName)})
+		}
+	}
 	if k := x.implKey(c, m); k != m.key() {
 		probs = append(probs, problem{clause: "state-key-after-reads", detail: "", what: fmt.Sprintf("after the read operations the registry reports %s, model %s", k, m.key())})
 	}
@@ -1028,6 +1367,8 @@ type result struct {
 	obs            string
 	writes         int
 	nilAcc, nilRef int
+	names          []string // the model's registrations after the path
+	edited         bool     // a descriptor-edit op was applied (not skipped as disabled)
 }
 
 // runPath replays ops on a fresh carrier (and a fresh reference server); the
@@ -1040,6 +1381,7 @@ func runPath(j job) (res result) {
 	defer x.ref.Stop()
 	c := newCarrier(j.carrier)
 	m := model{}
+	x.m = m
 	for i, op := range j.ops {
 		res.probs = append(res.probs, x.applyOp(c, m, op, i)...)
 		if j.all || i == len(j.ops)-1 {
@@ -1074,6 +1416,11 @@ func runPath(j job) (res result) {
 		}
 	}
 	res.key, res.modelKey, res.obs = x.implKey(c, m), m.key(), x.lastObs
+	for n := range m {
+		res.names = append(res.names, n)
+	}
+	sort.Strings(res.names)
+	res.edited = x.edited
 	res.writes, res.nilAcc, res.nilRef = x.writes, x.nilAcc, x.nilRef
 	return
 }
@@ -1114,6 +1461,7 @@ func opKind(op string) string {
 
 func main() {
 	rep := vlib.NewReporter("C15")
+	t0 := time.Now()
 	go func() { // hang guard
 		last := int64(-1)
 		for {
@@ -1146,15 +1494,29 @@ func main() {
 		os.Exit(0)
 	}
 
+	reported := map[string]bool{}
 	report := func(carrierName string, ops []string, probs []problem) {
 		for _, pr := range probs {
 			cl, what := pr.render()
-			fp := fmt.Sprintf("C15|%s|%s|%s", carrierName, cl, pr.detail)
+			fp := "C15|" + carrierName + "|" + cl + "|" + pr.detail
+			if reported[fp] {
+				continue
+			}
+			reported[fp] = true
 			rep.Violation(fp, fmt.Sprintf("after ops %v: %s", ops, what), replayCase{carrierName, append([]string(nil), ops...)})
 		}
 	}
 
 	// ---------------- BFS
+	//
+	// Two state spaces per carrier:
+	//   full-pool  every pool descriptor of the carrier; registration, read and mutate ops are
+	//              explored to closure; the descriptor-edit ops are SWEPT around every reached
+	//              state (each enabled share-* / rename op is applied once and followed by the full
+	//              state oracle; its target is not expanded further);
+	//   sub-pool   three descriptors with pairwise different method sets and metadata; registration
+	//              ops, descriptor-edit ops (targets: the three names, renames also to a name outside
+	//              the pool), read ops and mutate ops are explored to closure, i.e. crossed.
 	const maxDepth = 7
 	states, transitions, traces := 0, 0, 0
 	nontrivial := map[string]bool{}
@@ -1162,69 +1524,174 @@ func main() {
 	frontierEmpty := true
 	nilAcc, nilRef := 0, 0
 	mutProbes, mutProbesWriting := 0, 0
+	editTransitions, editSweeps := 0, 0
 	var samples []interface{}
 	sampleKinds := map[string]int{}
 	perCarrier := map[string]interface{}{}
+	subMutate := []string{"mutate:scribble"}
+	if rep.Tier == "thorough" {
+		subMutate = nil
+		for _, k := range mutationKinds {
+			subMutate = append(subMutate, "mutate:"+k)
+		}
+	}
+	// handler kinds of the descriptor-edit dimension per tier (the registration ops of the full-pool
+	// space always use all six)
+	sweepKinds := []string{"reg", "ill-other"}
+	subKinds := func(cn string) []string {
+		if rep.Tier == "thorough" {
+			return regKinds
+		}
+		if cn == "HandlerMap" {
+			return []string{"reg", "reg-tnil", "reg-nil", "ill-other"}
+		}
+		return []string{"reg", "reg-nil", "ill-other"}
+	}
+	if rep.Tier == "thorough" {
+		sweepKinds = regKinds
+	}
+	subKindsUsed := map[string][]string{}
+	type space struct {
+		label, carrier string
+		ops            []string
+		sweepEdits     bool // descriptor-edit transitions are not expanded
+		counts         map[string]int
+	}
+	var spaces []space
 	for _, cn := range carrierNames {
 		regOps, readOps, mutOps := opsFor(cn)
-		ops := append(append(append([]string{}, regOps...), readOps...), mutOps...)
+		var names []string
+		for _, i := range poolFor(cn) {
+			names = append(names, pool[i].name)
+		}
+		share, rename := editOps(names, sweepKinds, append(append([]string{}, names...), unknownName))
+		ops := append(append(append(append(append([]string{}, regOps...), readOps...), mutOps...), share...), rename...)
+		spaces = append(spaces, space{"full-pool", cn, ops, true, map[string]int{"ops": len(ops), "register_ops": len(regOps), "read_ops": len(readOps), "mutate_ops": len(mutOps), "share_ops": len(share), "rename_ops": len(rename)}})
+	}
+	for _, cn := range carrierNames {
+		var names, regOps, readOps []string
+		for _, i := range subPool {
+			names = append(names, pool[i].name)
+		}
+		subKindsUsed[cn] = subKinds(cn)
+		for _, k := range subKinds(cn) {
+			for _, n := range names {
+				regOps = append(regOps, k+":"+n)
+			}
+		}
+		for _, n := range append(append([]string{}, names...), unknownName) {
+			readOps = append(readOps, "query:"+n)
+		}
+		if cn == "HandlerMap" {
+			readOps = append(readOps, "foreach")
+		}
+		readOps = append(readOps, "info")
+		share, rename := editOps(names, subKinds(cn), append(append([]string{}, names...), unknownName))
+		ops := append(append(append(append(append([]string{}, regOps...), share...), rename...), readOps...), subMutate...)
+		spaces = append(spaces, space{"sub-pool", cn, ops, false, map[string]int{"ops": len(ops), "register_ops": len(regOps), "read_ops": len(readOps), "mutate_ops": len(subMutate), "share_ops": len(share), "rename_ops": len(rename)}})
+	}
+	for _, sp := range spaces {
+		cn, ops := sp.carrier, sp.ops
 		type node struct {
-			key  string
-			path []string
+			key   string
+			path  []string
+			names map[string]bool
+		}
+		type work struct {
+			nd int
+			op string
+		}
+		nodeKey := func(res result) string {
+			if sp.sweepEdits || res.key == res.modelKey {
+				return res.key
+			}
+			// a registry that deviates from the model must not make the search skip model states
+			return res.modelKey + " / registry reports " + res.key
+		}
+		nameSet := func(res result) map[string]bool {
+			ns := map[string]bool{}
+			for _, n := range res.names {
+				ns[n] = true
+			}
+			return ns
 		}
 		r0 := runPath(job{cn, nil, true, false})
 		traces++
 		report(cn, nil, r0.probs)
-		visited := map[string]bool{r0.key: true}
-		frontier := []node{{r0.key, nil}}
-		cStates, cTrans := 1, 0
+		visited := map[string]bool{nodeKey(r0): true}
+		frontier := []node{{nodeKey(r0), nil, nameSet(r0)}}
+		cStates, cTrans, cEdit, cEditStates := 1, 0, 0, 0
 		for depth := 0; len(frontier) > 0; depth++ {
 			if depth >= maxDepth {
 				frontierEmpty = false
 				break
 			}
 			var next []node
+			var todo []work
+			for ni, nd := range frontier {
+				for _, op := range ops {
+					if opEnabled(op, nd.names) {
+						todo = append(todo, work{ni, op})
+					}
+				}
+			}
 			pathOf := func(i int) (node, string, []string) {
-				nd, op := frontier[i/len(ops)], ops[i%len(ops)]
+				nd, op := frontier[todo[i].nd], todo[i].op
 				return nd, op, append(append([]string{}, nd.path...), op)
 			}
-			results := runAll(len(frontier)*len(ops), func(i int) job {
+			results := runAll(len(todo), func(i int) job {
 				_, _, path := pathOf(i)
 				return job{cn, path, false, false}
 			})
 			for i, res := range results {
 				nd, op, path := pathOf(i)
-				k := res.key
+				k := nodeKey(res)
 				traces++
 				cTrans++
 				report(cn, path, res.probs)
 				kind := opKind(op)
 				nilAcc += res.nilAcc
 				nilRef += res.nilRef
+				ntKey := cn + "|" + sp.label + "|" + nd.key + "|" + op
 				switch {
 				case isRegKind(kind):
-					nontrivial[cn+"|"+nd.key+"|"+op] = true
+					nontrivial[ntKey] = true
+				case isDescEditKind(kind):
+					// enabled, so it changed the name of a descriptor the registry holds
+					nontrivial[ntKey] = true
+					cEdit++
 				case kind == "mutate":
 					mutProbes++
 					if res.writes > 0 { // the edit really touched something that had been handed out
 						mutProbesWriting++
-						nontrivial[cn+"|"+nd.key+"|"+op] = true
+						nontrivial[ntKey] = true
 					}
 				case nd.key != "{}":
-					nontrivial[cn+"|"+nd.key+"|"+op] = true
+					nontrivial[ntKey] = true
 				}
 				sk := kind
 				if kind == "mutate" {
 					sk = op
 				}
-				if len(samples) < 24 && nd.key == "{p.Mixed}" && sampleKinds[cn+sk] == 0 && (isRegKind(kind) || kind == "mutate" || kind == "info") && (cn == "HandlerMap" || kind == "reg-nil" || op == "mutate:filter") {
+				if sp.label == "full-pool" && len(samples) < 24 && nd.key == "{p.Mixed}" && sampleKinds[cn+sk] == 0 && (isRegKind(kind) || kind == "mutate" || kind == "info") && (cn == "HandlerMap" || kind == "reg-nil" || op == "mutate:filter") {
 					sampleKinds[cn+sk]++
-					samples = append(samples, map[string]interface{}{"carrier": cn, "from": nd.key, "op": op, "to": k, "observed": res.obs, "problems": len(res.probs)})
+					samples = append(samples, map[string]interface{}{"carrier": cn, "space": sp.label, "from": nd.key, "op": op, "to": k, "observed": res.obs, "problems": len(res.probs)})
+				}
+				if sp.label == "sub-pool" && len(samples) < 40 && isDescEditKind(kind) && sampleKinds[cn+"edit"+op] == 0 && nd.key == "{p.Mixed,p.Unary1}" && (strings.HasSuffix(op, ":p.Mixed>p.Streams") || op == "rename:p.Mixed>p.Unary1" || op == "share-reg:p.Mixed>p.Unary1") && (cn == "HandlerMap" || kind == "share-reg" || kind == "rename") {
+					sampleKinds[cn+"edit"+op]++
+					samples = append(samples, map[string]interface{}{"carrier": cn, "space": sp.label, "from": nd.key, "op": op, "to": k, "observed": res.obs, "problems": len(res.probs)})
+				}
+				if sp.sweepEdits && isDescEditKind(kind) {
+					editSweeps++
+					continue // swept, not expanded
 				}
 				if !visited[k] {
 					visited[k] = true
 					cStates++
-					next = append(next, node{k, path})
+					if res.edited {
+						cEditStates++
+					}
+					next = append(next, node{k, path, nameSet(res)})
 					if depth+1 > depthReached {
 						depthReached = depth + 1
 					}
@@ -1234,23 +1701,35 @@ func main() {
 		}
 		states += cStates
 		transitions += cTrans
-		perCarrier[cn] = map[string]int{"states": cStates, "transitions": cTrans, "ops": len(ops), "register_ops": len(regOps), "read_ops": len(readOps), "mutate_ops": len(mutOps)}
+		editTransitions += cEdit
+		sp.counts["states"], sp.counts["transitions"], sp.counts["descriptor_edit_transitions"] = cStates, cTrans, cEdit
+		if !sp.sweepEdits {
+			sp.counts["states_reached_through_descriptor_edits"] = cEditStates
+		}
+		perCarrier[cn+" "+sp.label] = sp.counts
+		if os.Getenv("VERIF_C15_TIMING") != "" {
+			fmt.Fprintf(os.Stderr, "timing: %s %s done at %.1fs (%d transitions)\n", cn, sp.label, time.Since(t0).Seconds(), cTrans)
+		}
 	}
 
 	// ---------------- every sequence of registration attempts and result edits (no state
 	// caching): checks that the state abstraction is sound (behaviour depends on the set of
-	// (name, handler kind) only, and an edit of handed-out results has no delayed effect)
+	// (name, handler kind, descriptor object, current descriptor names) only, and an edit of
+	// handed-out results has no delayed effect)
+	//   family 1: full pool, registration ops + mutate:scribble
+	//   family 2: sub-pool, registration ops + descriptor-edit ops + mutate:scribble; only the
+	//             sequences that contain a descriptor-edit op whose source can be registered at
+	//             that point (the others are in family 1 or are no-ops)
 	seqLen := 3
 	if rep.Tier == "thorough" {
 		seqLen = 4
 	}
-	sequences := 0
+	editSeqLen := 3
+	sequences, editSequences := 0, 0
 	seqAlphabet := map[string]int{}
-	for _, cn := range carrierNames {
-		regOps, _, _ := opsFor(cn)
-		alphabet := append(append([]string{}, regOps...), "mutate:scribble")
-		seqAlphabet[cn] = len(alphabet)
-		for l := 1; l <= seqLen; l++ { // shortest first
+	editSeqAlphabet := map[string]int{}
+	runSequences := func(cn string, alphabet []string, minLen, maxLen int, keep func(path []string) bool, count *int) {
+		for l := minLen; l <= maxLen; l++ { // shortest first
 			total := 1
 			for i := 0; i < l; i++ {
 				total *= len(alphabet)
@@ -1264,23 +1743,92 @@ func main() {
 				return path
 			}
 			const chunk = 1 << 15
-			for base := 0; base < total; base += chunk {
-				n := total - base
-				if n > chunk {
-					n = chunk
-				}
-				results := runAll(n, func(i int) job { return job{cn, decode(base + i), false, false} })
+			var batch [][]string
+			flush := func() {
+				results := runAll(len(batch), func(i int) job { return job{cn, batch[i], false, false} })
 				for i, res := range results {
-					sequences++
+					*count++
 					nilAcc += res.nilAcc
 					nilRef += res.nilRef
 					if len(res.probs) > 0 {
-						report(cn, decode(base+i), res.probs)
+						report(cn, batch[i], res.probs)
+					}
+				}
+				batch = batch[:0]
+			}
+			for i := 0; i < total; i++ {
+				if path := decode(i); keep == nil || keep(path) {
+					batch = append(batch, path)
+					if len(batch) == chunk {
+						flush()
 					}
 				}
 			}
+			flush()
 		}
 	}
+	for _, cn := range carrierNames {
+		regOps, _, _ := opsFor(cn)
+		alphabet := append(append([]string{}, regOps...), "mutate:scribble")
+		seqAlphabet[cn] = len(alphabet)
+		runSequences(cn, alphabet, 1, seqLen, nil, &sequences)
+		if os.Getenv("VERIF_C15_TIMING") != "" {
+			fmt.Fprintf(os.Stderr, "timing: %s sequences family 1 done at %.1fs (%d)\n", cn, time.Since(t0).Seconds(), sequences)
+		}
+	}
+	editSeqKinds := map[string]interface{}{}
+	for _, cn := range carrierNames {
+		var names []string
+		for _, i := range subPool {
+			names = append(names, pool[i].name)
+		}
+		// live: at least one descriptor-edit op, and each of them has a source that the ops before
+		// it can have registered (an untyped nil handler counts as possibly accepted)
+		live := func(path []string) bool {
+			names := map[string]bool{}
+			edits := 0
+			for _, op := range path {
+				k := opKind(op)
+				switch {
+				case isRegKind(k):
+					if k == "reg" || k == "reg-tnil" || k == "reg-nil" {
+						names[op[len(k)+1:]] = true
+					}
+				case isDescEditKind(k):
+					if !opEnabled(op, names) {
+						return false
+					}
+					edits++
+					if rk := strings.TrimPrefix(k, "share-"); rk == "reg" || rk == "reg-tnil" || rk == "reg-nil" {
+						_, nw := splitEdit(op[len(k)+1:])
+						names[nw] = true
+					}
+				}
+			}
+			return edits > 0
+		}
+		family := func(kinds []string, minLen, maxLen int) {
+			var alphabet []string
+			for _, k := range kinds {
+				for _, n := range names {
+					alphabet = append(alphabet, k+":"+n)
+				}
+			}
+			share, rename := editOps(names, kinds, append(append([]string{}, names...), unknownName))
+			alphabet = append(append(append(alphabet, share...), rename...), "mutate:scribble")
+			editSeqAlphabet[fmt.Sprintf("%s length %d-%d", cn, minLen, maxLen)] = len(alphabet)
+			editSeqKinds[fmt.Sprintf("%s length %d-%d", cn, minLen, maxLen)] = kinds
+			runSequences(cn, alphabet, minLen, maxLen, live, &editSequences)
+		}
+		family(subKinds(cn), 1, editSeqLen)
+		if rep.Tier == "thorough" {
+			family([]string{"reg", "ill-other"}, editSeqLen+1, editSeqLen+1)
+		}
+		if os.Getenv("VERIF_C15_TIMING") != "" {
+			fmt.Fprintf(os.Stderr, "timing: %s sequences family 2 done at %.1fs (%d)\n", cn, time.Since(t0).Seconds(), editSequences)
+		}
+	}
+	sequences += editSequences
 
 	nilTreatment := "refused by panicking"
 	switch {
@@ -1290,34 +1838,46 @@ func main() {
 		nilTreatment = "accepted (like grpc.Server)"
 	}
 	os.Exit(rep.Finish("model_checking", map[string]interface{}{
-		"states":                          states,
-		"transitions":                     transitions,
-		"traces_validated_against_impl":   traces + sequences,
-		"bfs_paths_replayed":              traces,
-		"registration_sequences":          sequences,
-		"registration_sequence_length":    seqLen,
-		"registration_sequence_alphabet":  seqAlphabet,
-		"depth_bound":                     maxDepth,
-		"depth_reached":                   depthReached,
-		"frontier_exhausted":              frontierEmpty,
-		"per_carrier":                     perCarrier,
-		"handler_kinds":                   regKinds,
-		"mutation_kinds":                  mutationKinds,
-		"mutation_probes":                 mutProbes,
-		"mutation_probes_that_wrote":      mutProbesWriting,
-		"fresh_nil_handler_registrations": map[string]interface{}{"accepted": nilAcc, "refused": nilRef, "treatment": nilTreatment},
-		"reference_grpc_servers_built":    atomic.LoadInt64(&refServers),
-		"evaluations":                     traces + sequences,
-		"distinct_nontrivial":             len(nontrivial),
-		"rule":                            "BFS over (carrier x set of (registered name, kind of handler held: pointer / typed-nil pointer / untyped nil)) with 6 registration ops per pool descriptor (handler = pointer implementing the interface | typed-nil pointer of that type | untyped nil | pointer of another service's type | typed-nil pointer of another service's type | value of a pointer-receiver type; 6 descriptors on HandlerMap, 4 on the transports), the read ops (query x every pool name, an unknown name and the near misses of every pool name: leading, trailing, doubled, inner slash, proper prefix, proper suffix, extension, empty; ForEach on HandlerMap; GetServiceInfo) and 10 mutate ops (the caller edits in place EVERY result GetServiceInfo has handed out so far on the path, one op per kind of edit: 6 on the Methods slices incl. their spare capacity, 3 on the map, 1 overwriting everything reachable). Each transition = fresh real object + fresh real grpc.Server, replay of the shortest path on both + the op, then the full state oracle (every read; GetServiceInfo compared with a fresh GetServiceInfo of that grpc.Server, whose handed-out results received the same edits). A mutate op is a differential probe made at every reached state: all reads before, the edit, all reads after; it must be a self loop. A transition is non-trivial when it is a registration attempt, a read in a non-empty registry, or a mutate op that wrote at least one slice element or map entry; distinct by (carrier, state, op). In addition every sequence over (registration ops + 'mutate:scribble') up to registration_sequence_length is replayed without state caching.",
-		"samples":                         samples,
-		"exhaustive":                      frontierEmpty,
+		"states":                            states,
+		"transitions":                       transitions,
+		"traces_validated_against_impl":     traces + sequences,
+		"bfs_paths_replayed":                traces,
+		"registration_sequences":            sequences,
+		"registration_sequence_length":      seqLen,
+		"registration_sequence_alphabet":    seqAlphabet,
+		"descriptor_edit_sequences":         editSequences,
+		"descriptor_edit_sequence_alphabet": editSeqAlphabet,
+		"descriptor_edit_sequence_kinds":    editSeqKinds,
+		"descriptor_edit_transitions":       editTransitions,
+		"descriptor_edit_sweeps":            editSweeps,
+		"descriptor_edit_handler_kinds":     map[string]interface{}{"full-pool sweep": sweepKinds, "sub-pool": subKindsUsed},
+		"sub_pool":                          []string{pool[subPool[0]].name, pool[subPool[1]].name, pool[subPool[2]].name},
+		"info_repeats_on_name_clash":        infoRepeats,
+		"depth_bound":                       maxDepth,
+		"depth_reached":                     depthReached,
+		"frontier_exhausted":                frontierEmpty,
+		"per_carrier":                       perCarrier,
+		"handler_kinds":                     regKinds,
+		"mutation_kinds":                    mutationKinds,
+		"mutation_probes":                   mutProbes,
+		"mutation_probes_that_wrote":        mutProbesWriting,
+		"fresh_nil_handler_registrations":   map[string]interface{}{"accepted": nilAcc, "refused": nilRef, "treatment": nilTreatment},
+		"reference_grpc_servers_built":      atomic.LoadInt64(&refServers),
+		"evaluations":                       traces + sequences,
+		"distinct_nontrivial":               len(nontrivial),
+		"rule":                              "BFS over (carrier x set of (registered name, kind of handler held: pointer / typed-nil pointer / untyped nil, descriptor OBJECT held: its own or one shared with other names) x current ServiceName of every held descriptor object). Two spaces per carrier. FULL-POOL: 6 registration ops per pool descriptor (handler = pointer implementing the interface | typed-nil pointer of that type | untyped nil | pointer of another service's type | typed-nil pointer of another service's type | value of a pointer-receiver type; 6 descriptors on HandlerMap, 4 on the transports), the read ops (query x every pool name, an unknown name and the near misses of every pool name: leading, trailing, doubled, inner slash, proper prefix, proper suffix, extension, empty; ForEach on HandlerMap; GetServiceInfo) and 10 mutate ops (the caller edits in place EVERY result GetServiceInfo has handed out so far on the path, one op per kind of edit: 6 on the Methods slices incl. their spare capacity, 3 on the map, 1 overwriting everything reachable), explored to closure; around EVERY state reached, every enabled descriptor-edit op is swept (applied once, followed by the full state oracle, target not expanded): share-<kind>:<src>><new> = the descriptor object registered under <src> gets ServiceName <new> and is registered again with a new handler (kinds: see descriptor_edit_handler_kinds; src, new over all pool names of the carrier, new = src and new = an already registered name included), rename:<src>><new> = that object gets ServiceName <new> and nothing is registered (new over all pool names and a name outside the pool). SUB-POOL (3 descriptors with pairwise different method sets and metadata): registration ops, share ops (src x new over the 3 names), rename ops (src x the 3 names and a name outside the pool), query / ForEach / info ops and mutate ops (quick: the edit overwriting everything reachable; thorough: all 10) explored to closure, i.e. every reachable combination of sharing, current names and handler kinds is a state and gets every op. Each transition = fresh real object + fresh real grpc.Server, replay of the shortest path on both (the SAME descriptor objects are registered with, and renamed under, both) + the op, then the full state oracle (every read; lookup must return the descriptor object and handler registered under the name whatever the descriptor is called now; ForEach must visit the multiset of registered (descriptor, handler) pairs; GetServiceInfo compared with a fresh GetServiceInfo of that grpc.Server, whose handed-out results received the same edits). A mutate op is a differential probe made at every reached state: all reads before, the edit, all reads after; it must be a self loop. A transition is non-trivial when it is a registration attempt, an enabled descriptor-edit op (its source is registered, so it renames a descriptor the registry holds), a read in a non-empty registry, or a mutate op that wrote at least one slice element or map entry; distinct by (carrier, space, state, op). In addition every sequence over (registration ops + 'mutate:scribble') up to registration_sequence_length is replayed without state caching, and so is every sequence over the sub-pool alphabet (registration + share + rename ops + 'mutate:scribble') up to length 3 (thorough: also length 4 with handler kinds reg / ill-other) that contains a descriptor-edit op and in which every descriptor-edit op has a source.",
+		"samples":                           samples,
+		"exhaustive":                        frontierEmpty,
 	}, []string{
 		"pool of 4 descriptors (0-2 unary, 0-2 streams covering all four flag pairs, nil/string/struct Metadata) + on HandlerMap a 5th whose ServiceName is \"/p.Unary1\" next to p.Unary1 and a 6th, p.Dup, with repeated method names (a unary method listed twice, a stream of the same name as a unary method, a stream listed twice) (such names cannot be addressed through the transports' /service/method paths, so it is not registered there) + 1 unknown name + near-miss names",
 		"on the two transports, lookup is observed by dispatching every method of the service (in-process Invoke/NewStream; HTTP ServeHTTP on a recorder) and identifying descriptor and handler instance that ran",
 		"untyped nil handler: " + nilHandlerRule,
 		"soundness of the mutate ops: they are probes, not part of the state key. At every reached state each kind of edit is applied to all results handed out on the shortest path to it (these include results obtained before and after every registration of the path, the first and later ones) and every read is repeated at once, so an effect that is visible to any read in the state where the edit is made is found for every state and kind. An effect that stays invisible to all reads in that state and only surfaces after further registrations is covered up to the length of the uncached sequences only (edit 'scribble', which overwrites everything reachable from the results).",
-		"QueryService / ForEach hand out the registered descriptor and handler THEMSELVES (the statement demands exactly those objects, and grpc.Server offers no such lookup), and ServiceInfo.Metadata is the descriptor's own value in grpc.Server too: edits through these are edits of the caller's own registration input, not of a result, and are not part of the alphabet",
+		"descriptor re-use: what is quantified over is the ServiceName of a descriptor object the registry holds (the one field the registry keys on); the caller may register the same object again under the new name, or only rename it. A *grpc.Server reads the descriptor at registration time, so both are fine there and the reference server, driven with the same objects at the same moments, defines the expected service info. Soundness of the extended state key: future behaviour of the registry can depend on (a) which names are registered, (b) the handler value held for each (abstracted to its kind; identities are checked by the oracle), (c) which descriptor object each entry holds, (d) the contents of those objects. Nothing is ever unregistered and a fresh object is always registered first under its pool name, so a held object is identified by the pool entry it was built from ('<origin' in the key names the object; entries with the same origin share it), and the only content that varies is its current ServiceName ('origin->current' in the key). Two paths with the same key therefore hold isomorphic object graphs; that handler identities and the order of the ops do not matter beyond that is what the uncached sequences check. In the sub-pool space this key is explored to closure; in the full-pool space the descriptor-edit ops are swept one step deep around every state (crossing them to closure over 6 names is not affordable).",
+		"Go's map iteration order cannot be controlled: when two different held descriptor objects carry the same name at the moment of a GetServiceInfo (two registrations with different contents could compete for one name of the result), the read is repeated info_repeats_on_name_clash times and every result is checked, so that the verdict does not depend on the order met first",
+		"fingerprints of problems seen after a descriptor-edit op: clause prefixed with 'after-descriptor-edit:'; the service name is replaced by how it is involved (registration whose descriptor now carries another name | registration whose name another held descriptor carries too | registration of a descriptor registered under several names | unregistered name that a held descriptor carries); problems about names that are not involved keep their ordinary fingerprint; all deviations of the registry's reported state collapse into 'registry-state'",
+		"other in-place edits of a registered descriptor (its Methods / Streams / Metadata) are not in the alphabet: there grpc.Server is itself partly live (stream flags are read through pointers into the descriptor) and partly a snapshot (method names, metadata), and the statement does not say which the registry should be",
+		"QueryService / ForEach hand out the registered descriptor and handler THEMSELVES (the statement demands exactly those objects, and grpc.Server offers no such lookup), and ServiceInfo.Metadata is the descriptor's own value in grpc.Server too: edits through these are edits of the caller's own registration input, not of a result; of those only the ServiceName edits above are part of the alphabet",
 		"the concurrent manifestation of a read operation that writes to the registry (map write racing with a lookup) is a data race outside this sequential engine",
 	}))
 }
